@@ -195,6 +195,44 @@ func (e *fnEnc) bigStore(st *state, addr string, t types.Type, val string) {
 	e.emit(fmt.Sprintf("(assert (= %s %s))", e.bigLoad(st, addr, t), val))
 }
 
+// strOf: the contents of a byte slice in the current memory as a string value. strof is a
+// function of the byte heap and the slice; its length and bytes are those of the slice.
+// Writes to other allocations do not change it (syntactic frame through the store chain).
+func (e *fnEnc) strOf(st *state, x string) string {
+	h := e.heap(st, "bv8", sortBV8)
+	h = e.skipStoresOutside(h, app("s_base", x))
+	r := e.define("str", sortStr, app("strof", h, x))
+	e.assume(st, eq(app("strlen", r), app("s_len", x)))
+	e.hasQuant = true
+	e.assume(st, fmt.Sprintf("(forall ((ci (_ BitVec 64))) (! (=> (bvult ci (s_len %s)) (= (strbyte %s ci) (select %s (idx (s_base %s) (bvadd (s_off %s) ci))))) :pattern ((strbyte %s ci))))", x, r, h, x, x, r))
+	// the first 32 positions as ground facts (fixed-width values read out of a string)
+	var gs []string
+	for i := 0; i < 32; i++ {
+		ci := bvLit(64, uint64(i))
+		gs = append(gs, implies(app("bvult", ci, app("s_len", x)), eq(app("strbyte", r, ci), e.selectFwd(h, idxAddr(app("s_base", x), bvadd(app("s_off", x), ci))))))
+	}
+	e.assume(st, and(gs...))
+	return r
+}
+
+// skipStoresOutside walks back over stores whose address is provably in another allocation
+// than base (both are distinct allocation names, or the written object was allocated after
+// base was declared).
+func (e *fnEnc) skipStoresOutside(h, base string) string {
+	base = foldTerm(base)
+	for i := 0; i < 10000; i++ {
+		rec, ok := e.storeInfo[h]
+		if !ok {
+			return h
+		}
+		if !e.distinctRoots(rec.addr, base) {
+			return h
+		}
+		h = rec.prev
+	}
+	return h
+}
+
 type storeRec struct{ prev, addr, val string }
 
 // selectFwd reads a cell, resolving read-over-write syntactically where the written and
@@ -287,6 +325,29 @@ func (e *fnEnc) distinctSx(a, b *sx) bool {
 		}
 	}
 	return false
+}
+
+// distinctRoots: the two addresses lie in different allocations (syntactically evident).
+func (e *fnEnc) distinctRoots(a, b string) bool {
+	fa, err1 := parseSexps(a)
+	fb, err2 := parseSexps(b)
+	if err1 != nil || err2 != nil || len(fa) != 1 || len(fb) != 1 {
+		return false
+	}
+	ra, rb := fa[0], fb[0]
+	for ra.list != nil && (ra.head() == "idx" || ra.head() == "fld") {
+		ra = ra.list[1]
+	}
+	for rb.list != nil && (rb.head() == "idx" || rb.head() == "fld") {
+		rb = rb.list[1]
+	}
+	if ra.list != nil || rb.list != nil || ra.atom == rb.atom {
+		return false
+	}
+	if e.allocNames[ra.atom] && e.allocNames[rb.atom] {
+		return true
+	}
+	return e.olderThanAlloc(ra.atom, rb.atom) || e.olderThanAlloc(rb.atom, ra.atom)
 }
 
 func (e *fnEnc) rootAtomDiffers(a *sx, name string) bool {
@@ -500,6 +561,7 @@ func (e *fnEnc) execInstr(b *ssa.BasicBlock, ins ssa.Instruction, st *state) {
 
 	case *ssa.Call:
 		e.call(st, v, v.Common(), v)
+		e.afterCall(st, v)
 	case *ssa.Go:
 		e.goStmt(st, v)
 	case *ssa.Defer:
@@ -826,14 +888,12 @@ func (e *fnEnc) convert(st *state, X ssa.Value, to types.Type, at ssa.Value) str
 		e.V.needFloat = true
 		return app(fmt.Sprintf("f2f_%d_%d", fs.width, ts.width), x)
 	case fs.kind == skSlice && ts.kind == skStr:
-		// string(bytes): fresh string, contents = bytes
+		// string(bytes): the contents of the slice in the current memory, as a value
+		if el, ok := from.Underlying().(*types.Slice).Elem().Underlying().(*types.Basic); ok && el.Kind() == types.Uint8 {
+			return e.strOf(st, x)
+		}
 		r := e.declare("str", sortStr)
 		e.assume(st, eq(app("strlen", r), app("s_len", x)))
-		if el, ok := from.Underlying().(*types.Slice).Elem().Underlying().(*types.Basic); ok && el.Kind() == types.Uint8 {
-			h := e.heap(st, "bv8", sortBV8)
-			e.hasQuant = true
-			e.assume(st, fmt.Sprintf("(forall ((ci (_ BitVec 64))) (! (=> (bvult ci (s_len %s)) (= (strbyte %s ci) (select %s (idx (s_base %s) (bvadd (s_off %s) ci))))) :pattern ((strbyte %s ci))))", x, r, h, x, x, r))
-		}
 		return r
 	case fs.kind == skStr && ts.kind == skSlice:
 		base := e.alloc(st, "strbytes")
@@ -842,6 +902,8 @@ func (e *fnEnc) convert(st *state, X ssa.Value, to types.Type, at ssa.Value) str
 			h := e.heap(st, "bv8", sortBV8)
 			e.hasQuant = true
 			e.assume(st, fmt.Sprintf("(forall ((ci (_ BitVec 64))) (! (=> (bvult ci (strlen %s)) (= (select %s (idx %s ci)) (strbyte %s ci))) :pattern ((select %s (idx %s ci)))))", x, h, base, x, h, base))
+			// the new slice holds exactly the string (strof is the contents-as-a-value function)
+			e.assume(st, eq(app("strof", h, r), x))
 		}
 		return r
 	case isInteger(from) && ts.kind == skStr:
@@ -1105,6 +1167,28 @@ func (e *fnEnc) makeSlice(st *state, v *ssa.MakeSlice) {
 	}
 }
 
+// afterCall: intermediate assertions of the contract (`after-call <callee> [label] expr`): proved
+// right after every call whose callee name contains <callee>, with the function's source
+// variables in scope, and available from then on. They only structure the proof.
+func (e *fnEnc) afterCall(st *state, v *ssa.Call) {
+	if e.fc == nil || len(e.fc.AfterCall) == 0 || st.reach == "false" {
+		return
+	}
+	key := e.calleeKey(v.Common())
+	for i, ac := range e.fc.AfterCall {
+		if !strings.Contains(key, ac.Callee) {
+			continue
+		}
+		ac.Used = true
+		env := e.contractEnv(st, e.entry, nil)
+		t := env.evalBool(ac.Expr)
+		o := e.oblige(st, "assert", fmt.Sprintf("after:%s[%s]", ac.Callee, labelOr(ac.Label, i)), v.Pos(), t)
+		o.Quantified = strings.Contains(t, "forall") || strings.Contains(t, "exists")
+		o.Src = ac.Src
+		e.assume(st, t)
+	}
+}
+
 func (e *fnEnc) panicInstr(st *state, v *ssa.Panic) {
 	e.oblige(st, "panic", "", v.Pos(), "false")
 	st.reach = "false"
@@ -1146,11 +1230,53 @@ func (e *fnEnc) ret(st *state, v *ssa.Return) {
 			e.oblige(st, "callback-stable", fmt.Sprintf("[%s]", labelOr(r.Label, i)), v.Pos(), implies(pre.evalBool(r.Expr), post.evalBool(r.Expr)))
 		}
 	}
+	if e.fn.Parent() != nil && !e.transDone {
+		// A two-state postcondition labelled [transitive:...] of a function literal is assumed
+		// across a host call that invokes the literal any number of times; that is sound when
+		// the relation is reflexive and transitive, which is checked here over three arbitrary
+		// memory states (the literal's captured variables and the parent's values are fixed).
+		e.transDone = true
+		for i, en := range e.fc.Ensures {
+			if !strings.HasPrefix(en.Label, "transitive:") {
+				continue
+			}
+			if clauseMentionsParams(en.Expr, e.fn) {
+				e.structureError(fmt.Sprintf("%s: a [transitive:] postcondition must not mention the literal's parameters", funcKey(e.fn)))
+				continue
+			}
+			s1 := e.entry.clone()
+			s2 := s1.clone()
+			e.havocAll(s2)
+			s3 := s2.clone()
+			e.havocAll(s3)
+			r11 := e.contractEnv(s1, s1, nil).evalBool(en.Expr)
+			r12 := e.contractEnv(s2, s1, nil).evalBool(en.Expr)
+			r23 := e.contractEnv(s3, s2, nil).evalBool(en.Expr)
+			r13 := e.contractEnv(s3, s1, nil).evalBool(en.Expr)
+			o := e.oblige(e.entry, "callback-relation", fmt.Sprintf("reflexive[%s]", labelOr(en.Label, i)), v.Pos(), r11)
+			o.Quantified = true
+			o = e.oblige(s3, "callback-relation", fmt.Sprintf("transitive[%s]", labelOr(en.Label, i)), v.Pos(), implies(and(r12, r23), r13))
+			o.Quantified = true
+		}
+	}
 	for i, en := range e.fc.Ensures {
 		t := env.evalBool(en.Expr)
 		o := e.oblige(st, "ensures", fmt.Sprintf("[%s]", labelOr(en.Label, i)), v.Pos(), t)
 		o.Quantified = strings.Contains(t, "forall") || strings.Contains(t, "exists")
 		o.Src = en.Src
+	}
+	// assertions at the return that may name local variables (a local that has no value on
+	// this path is an arbitrary value: the clause must hold whatever it is)
+	if len(e.fc.AtReturn) > 0 {
+		lenv := e.contractEnv(st, e.entry, nil)
+		lenv.setResults(e.fn, res)
+		lenv.lenientLocals = true
+		for i, en := range e.fc.AtReturn {
+			t := lenv.evalBool(en.Expr)
+			o := e.oblige(st, "at-return", fmt.Sprintf("[%s]", labelOr(en.Label, i)), v.Pos(), t)
+			o.Quantified = strings.Contains(t, "forall") || strings.Contains(t, "exists")
+			o.Src = en.Src
+		}
 	}
 }
 
